@@ -7,6 +7,7 @@ package guard
 
 import (
 	"syscall"
+	"unsafe"
 )
 
 const Page = 4096
@@ -125,4 +126,112 @@ func (a *Arena) At(src []byte, off int) []byte {
 	s := a.body[off : off+n : off+n]
 	copy(s, src)
 	return s
+}
+
+// RO is a set of byte slices that live in memory the process may read but not write: a library call that stores into
+// one of its inputs - even if it restores the bytes before it returns - faults (and, under vx.TryFault, panics with the
+// address). Slices are carved out of one arena, a few bytes apart; Seal makes everything placed so far read-only,
+// Reset makes the arena writable again and forgets the slices.
+type RO struct {
+	mem    []byte
+	used   int
+	sealed bool
+}
+
+// NewRO maps an arena of the given number of pages (writable until Seal).
+func NewRO(pages int) *RO {
+	m, err := syscall.Mmap(-1, 0, pages*Page, syscall.PROT_READ|syscall.PROT_WRITE, syscall.MAP_ANON|syscall.MAP_PRIVATE)
+	if err != nil {
+		panic("guard: mmap: " + err.Error())
+	}
+	return &RO{mem: m}
+}
+
+// Put copies src into the arena and returns the copy (len == cap == len(src)); nil stays nil. When the arena is full the
+// slice is returned as an ordinary heap copy (the call then simply runs without the write protection).
+func (r *RO) Put(src []byte) []byte {
+	if src == nil {
+		return nil
+	}
+	if r.sealed {
+		r.Reset()
+	}
+	n := len(src)
+	if r.used+n+24 > len(r.mem) {
+		return append(make([]byte, 0, n), src...)
+	}
+	s := r.mem[r.used : r.used+n : r.used+n]
+	copy(s, src)
+	r.used += n + 7 + (8 - (r.used+n+7)%8) // a gap, odd alignment classes avoided
+	return s
+}
+
+// Seal write-protects the arena.
+func (r *RO) Seal() {
+	if !r.sealed {
+		if err := syscall.Mprotect(r.mem, syscall.PROT_READ); err != nil {
+			panic("guard: mprotect: " + err.Error())
+		}
+		r.sealed = true
+	}
+}
+
+// Reset makes the arena writable again and empties it.
+func (r *RO) Reset() {
+	if r.sealed {
+		if err := syscall.Mprotect(r.mem, syscall.PROT_READ|syscall.PROT_WRITE); err != nil {
+			panic("guard: mprotect: " + err.Error())
+		}
+		r.sealed = false
+	}
+	r.used = 0
+}
+
+// Owns reports whether addr lies inside the arena.
+func (r *RO) Owns(addr uintptr) bool {
+	if len(r.mem) == 0 {
+		return false
+	}
+	base := uintptr(unsafe.Pointer(&r.mem[0]))
+	return addr >= base && addr < base+uintptr(len(r.mem))
+}
+
+// Split is a run of writable pages followed by one read-only page (and then an inaccessible one): Place returns a slice
+// whose first rw bytes end exactly at the boundary and whose last ro bytes lie in the read-only page. A destination
+// whose spare capacity beyond the result is that read-only part may be appended to in place, but a library that stores
+// anything behind its result - even bytes it puts back afterwards - faults.
+type Split struct {
+	mem     []byte
+	rwPages int
+}
+
+func NewSplit(rwPages int) *Split {
+	n := (rwPages + 2) * Page
+	m, err := syscall.Mmap(-1, 0, n, syscall.PROT_READ|syscall.PROT_WRITE, syscall.MAP_ANON|syscall.MAP_PRIVATE)
+	if err != nil {
+		panic("guard: mmap: " + err.Error())
+	}
+	if err := syscall.Mprotect(m[n-Page:], syscall.PROT_NONE); err != nil {
+		panic("guard: mprotect: " + err.Error())
+	}
+	return &Split{mem: m, rwPages: rwPages}
+}
+
+// Place fills the read-only page with fill, protects it, and returns the slice described above (len = rw+ro).
+func (s *Split) Place(rw, ro int, fill byte) []byte {
+	b := s.rwPages * Page
+	if rw > b || ro > Page {
+		panic("guard: too large")
+	}
+	roPage := s.mem[b : b+Page]
+	if err := syscall.Mprotect(roPage, syscall.PROT_READ|syscall.PROT_WRITE); err != nil {
+		panic("guard: mprotect: " + err.Error())
+	}
+	for i := range roPage {
+		roPage[i] = fill
+	}
+	if err := syscall.Mprotect(roPage, syscall.PROT_READ); err != nil {
+		panic("guard: mprotect: " + err.Error())
+	}
+	return s.mem[b-rw : b+ro : b+ro]
 }
